@@ -99,16 +99,18 @@ class ServersMixin(object):
         policy = network.stsPolicies.get(server.hostname)
         lastDisconnect = network.lastDisconnectTimes.get(server.hostname)
 
-        if policy is None or lastDisconnect is None:
-            log.debug('No STS policy, or never disconnected from this server. %r %r',
-                policy, lastDisconnect)
+        if policy is None:
+            log.debug('No STS policy for this server.')
             return server
 
         # The policy was stored, which means it was received on a secure
         # connection.
         policy = ircutils.parseStsPolicy(log, policy, parseDuration=True)
 
-        if lastDisconnect + policy['duration'] < time.time():
+        # If no disconnection was recorded (eg. the bot did not shut down
+        # cleanly), the policy did not start to expire yet.
+        if lastDisconnect is not None and \
+                lastDisconnect + policy['duration'] < time.time():
             log.info('STS policy expired, removing.')
             network.expireStsPolicy(server.hostname)
             return server
